@@ -64,6 +64,14 @@ func (fr *Frame) modifiedIn(fn *ssa.Function, blocks map[int]bool, ms *modSet, b
 				ms.whole("M." + ks + "." + vs + ".val")
 			case *ssa.Alloc, *ssa.MakeSlice, *ssa.MakeMap, *ssa.MakeClosure:
 				ms.whole("$cnt")
+			case *ssa.Next:
+				if rng, ok := x.Iter.(*ssa.Range); ok && !x.IsString && fn == fr.fn {
+					ms.whole(fr.visName(rng))
+				}
+			case *ssa.Range:
+				if _, ok := x.X.Type().Underlying().(*types.Map); ok && fn == fr.fn {
+					ms.whole(fr.visName(x))
+				}
 			case ssa.CallInstruction:
 				fr.modCall(x, ms, bind, depth)
 			}
@@ -156,6 +164,16 @@ func (fr *Frame) modCall(ci ssa.CallInstruction, ms *modSet, bind map[*ssa.FreeV
 		return
 	}
 	key, callee := fr.calleeKey(c)
+	// the address of a struct field passed as an argument: the callee may write the field through it
+	for _, a := range c.Args {
+		if fa, ok := resolveBind(a, bind).(*ssa.FieldAddr); ok && fa.Field != 0 {
+			if pt, ok := fa.Type().Underlying().(*types.Pointer); ok {
+				if _, isStruct := pt.Elem().Underlying().(*types.Struct); isStruct && !isBuilderType(pt.Elem()) {
+					fr.modStore(fa, ms, bind)
+				}
+			}
+		}
+	}
 	if key != "" {
 		if _, ok := w.P.Ifaces[key]; ok && c.IsInvoke() {
 			return
@@ -546,7 +564,30 @@ func (fr *Frame) trInvariant(inv *Clause, li *loopInfo, st *State, entry *State)
 	env.entry = entry
 	env.where = inv.Where()
 	env.resolve = func(name string) (TV, bool) { return fr.resolveName(name, li) }
+	if rng := fr.mapRangeOf(li); rng != nil {
+		name := fr.visName(rng)
+		if so := fr.enc.w.heapSortOfName(name); so != "" {
+			env.vis = st.Get(name, so)
+		}
+	}
 	return fr.safeTr(env, inv)
+}
+
+// mapRangeOf returns the range-over-map iterator a loop steps (its Next lies in the loop and in no inner loop).
+func (fr *Frame) mapRangeOf(li *loopInfo) *ssa.Range {
+	if li == nil {
+		return nil
+	}
+	for _, ins := range li.header.Instrs {
+		if nx, ok := ins.(*ssa.Next); ok && !nx.IsString {
+			if rng, ok := nx.Iter.(*ssa.Range); ok {
+				if _, isMap := rng.X.Type().Underlying().(*types.Map); isMap {
+					return rng
+				}
+			}
+		}
+	}
+	return nil
 }
 
 // softKinds: clause kinds whose unresolvable identifiers fail the clause rather than the function.
